@@ -99,7 +99,11 @@ def rule_R1(ck):
                         continue
                     if p.reported() or p.value.name in ("RecoverableError", "CompilerStopIteration"):
                         continue
-                    ck.unknown(f"{name} with {len(probe['ops'])} operands raises {p.value!r} during size analysis")
+                    if p.value.name in ck.CRASHES:
+                        ck.violation(where, f"{name} with {len(probe['ops'])} operand(s) of the kinds it is declared with dies with {p.value.name}{tuple(str(a_)[:80] for a_ in (getattr(p.value, 'args', None) or ()))} "
+                                            "(an internal exception, not a diagnostic)", construct=f"{name}: internal exception")
+                    else:
+                        ck.unknown(f"{name} with {len(probe['ops'])} operands raises {p.value!r} during size analysis")
                     continue
                 size, val = unwrap(p.value)
                 errs = p.reported()
@@ -437,7 +441,7 @@ def rule_R4(ck):
     where = "deferred::Concatenator.length"
     ck.instance("concat-length", {"length of [3 bytes, sized S1, bytearray of 2, sized S2]": repr(ps[0].value[0]) if ps[0].kind == "return" else repr(ps[0].value)}, fn=where)
     if len(ps) != 1 or ps[0].kind != "return":
-        raise Unknown(f"length() siblings: {ps}")
+        return ck.incomplete(where, "length() of a concatenation", ps)
     total, sl, ln = ps[0].value
     if total != sym.add(sym.add(S1, S2), 5):
         ck.violation(where, f"length of a concatenation [3 literal bytes, chunk of size S1, a 2-byte bytearray (as .ascii produces), chunk of size S2] is {total!r}, expected S1+S2+5", construct="Concatenator.length", expected="S1+S2+5", found=repr(total))
@@ -574,18 +578,20 @@ def rule_R6(ck):
     I = eager_interp(repo)
     got = []
     I.summaries = dict(I.summaries)
-    I.summaries["parser::parse"] = lambda I_, fn_, a, k: sym.var("PARSED", "obj")
+    route = []
+    I.summaries["parser::parse"] = lambda I_, fn_, a, k: route.append(("parse", tuple(a), dict(k))) or sym.var("PARSED", "obj")
     I.summaries["compiler::Compiler.compile_include"] = lambda I_, fn_, a, k: got.append(tuple(a[1:])) or sym.var("INCLUDED", "bytes")
-    I.summaries["devices::resolve_relative_path"] = lambda I_, fn_, a, k: sym.var("PATH", "str")
+    I.summaries["devices::resolve_relative_path"] = lambda I_, fn_, a, k: route.append(("resolve", tuple(a), dict(k))) or sym.var("PATH", "str")
     DOT_ = sym.var("DOT_OF_INCLUDE", "int")
 
     def thunk2():
         del got[:]
+        del route[:]
         sh = Shapes(I)
         comp = I.instantiate(I.module_get("compiler", "Compiler"), [], {})
         state = {"filename": "a.mac", "emit_address": DOT_, "insn": sh.symbol(".include"), "compiler": comp, "context": "file"}
         r = I.call(metacommand_fn(I, ".include"), [state, "x.mac"], {})
-        return r, list(got)
+        return r, list(got), list(route), [e[1] for e in I.effects if e[0] == "open"]
     try:
         ps = [p for p in I.explore(thunk2) if p.kind == "return" and p.value[1]]
     except Unsupported as ex:
@@ -594,7 +600,20 @@ def rule_R6(ck):
     if not ps:
         raise Unknown("'.include' handler: no path reaches compile_include")
     for p in ps:
-        r, calls_ = p.value
+        r, calls_, route_, opened = p.value
+        # the name in the directive is resolved against the including file, that path is the one opened, and the parser gets
+        # (that path, what was read from it) - the path is what diagnostics inside the included file show and what its own includes resolve against
+        res = [x for x in route_ if x[0] == "resolve"]
+        par = [x for x in route_ if x[0] == "parse"]
+        PATH = sym.var("PATH", "str")
+        ck.instance("include-route", {"resolve_relative_path": repr(res[0][1:]) if res else None, "open": repr(opened), "parse": repr(par[0][1:])[:160] if par else None}, fn="metacommands::include")
+        if len(res) != 1 or (tuple(res[0][1]) + tuple(res[0][2].get(n) for n in ("path", "relative_to") if n in res[0][2]))[:2] != ("x.mac", "a.mac"):
+            ck.violation("metacommands::include", f"'.include \"x.mac\"' inside a.mac resolves its path with resolve_relative_path{res[0][1] if res else ()!r}; expected ('x.mac', 'a.mac'): the included name relative to the including file",
+                         construct="include path resolution")
+        if len(opened) != 1 or not opened[0] or opened[0][0] != PATH:
+            ck.violation("metacommands::include", f"'.include' opens {opened!r}, expected the resolved path first", construct="include opens the resolved path")
+        if len(par) != 1 or len(par[0][1]) != 2 or par[0][1][0] != PATH or par[0][1][1] == PATH or "read" not in repr(par[0][1][1]):
+            ck.violation("metacommands::include", f"'.include' parses {par[0][1] if par else None!r}; expected parse(<resolved path>, <text read from that file>)", construct="include parse arguments")
         if len(calls_) != 1 or len(calls_[0]) < 2 or calls_[0][1] != DOT_:
             ck.violation("metacommands::include", f"'.include' compiles the included file at {calls_[0][1] if calls_ and len(calls_[0]) > 1 else None!r}, not at the address of the including statement", construct="include address argument")
         elif r != sym.var("INCLUDED", "bytes"):
